@@ -1,0 +1,89 @@
+//go:build verif
+
+// Contracts for the deductive verifier in /verif (govc). This file contains
+// comments only: with the build tag off it does not exist, with the tag on it
+// compiles to nothing. Syntax: /verif/DESIGN.md section 3.7.
+
+package decoder
+
+//@ spec digit(c) := c >= 48 && c <= 57
+//@ spec ws(c) := c == 32 || c == 10 || c == 9 || c == 13
+//@ spec bufOK(b, c) := len(b) >= 1 && b[len(b)-1] == 0 && 0 <= c && c < len(b)
+
+//@ func char(ptr, offset) (c)
+//@   inline
+
+//@ func (*intDecoder).typeError(d, buf, offset) (e)
+//@   props C16 C06
+//@   requires d != nil
+//@   ensures e != nil
+//@   assigns nothing
+
+//@ func (*uintDecoder).typeError(d, buf, offset) (e)
+//@   props C16 C06
+//@   requires d != nil
+//@   ensures e != nil
+//@   assigns nothing
+
+//@ func validateNull(buf, cursor) (err)
+//@   props C05 C06
+//@   requires 0 <= cursor && cursor < len(buf)
+//@   ensures err == nil <==> (cursor+3 < len(buf) && buf[cursor+1] == 'u' && buf[cursor+2] == 'l' && buf[cursor+3] == 'l')
+//@   assigns nothing
+
+//@ spec wsRun(b, lo, hi) := forall k :: lo <= k && k < hi ==> ws(b[k])
+//@ spec digitRun(b, lo, hi) := forall k :: lo <= k && k < hi ==> digit(b[k])
+// jsonIntTok: b[s:c) is -?(0|[1-9][0-9]*)
+//@ spec jsonIntTok(b, s, c) := s < c && (b[s] == '-' ? (s+1 < c && digitRun(b, s+1, c) && (b[s+1] == '0' ==> c == s+2)) : (digitRun(b, s, c) && (b[s] == '0' ==> c == s+1)))
+// zeroTok: the token is 0 or -0; a digit after it is left for the caller to reject
+//@ spec zeroTok(b, s) := b[s] == '0' || (b[s] == '-' && b[s+1] == '0')
+//@ spec jsonUintTok(b, s, c) := s < c && digitRun(b, s, c) && (b[s] == '0' ==> c == s+1)
+// decvalN: Horner value of the first n (<= 20) digit bytes of s, for symbolic n
+//@ spec dvStep(s, n, k, acc) := k <= n ? acc*10 + (s[k-1]-48) : acc
+//@ spec decvalN(s, n) := dvStep(s,n,20, dvStep(s,n,19, dvStep(s,n,18, dvStep(s,n,17, dvStep(s,n,16, dvStep(s,n,15, dvStep(s,n,14, dvStep(s,n,13, dvStep(s,n,12, dvStep(s,n,11, dvStep(s,n,10, dvStep(s,n,9, dvStep(s,n,8, dvStep(s,n,7, dvStep(s,n,6, dvStep(s,n,5, dvStep(s,n,4, dvStep(s,n,3, dvStep(s,n,2, dvStep(s,n,1, 0))))))))))))))))))))
+//@ spec intvalOf(b) := b[0] == '-' ? 0 - decvalN(b[1:], len(b)-1) : decvalN(b, len(b))
+//@ spec fitsInt(v, kind) := (kind == 3 ==> -128 <= v && v <= 127) && (kind == 4 ==> -32768 <= v && v <= 32767) && (kind == 5 ==> -2147483648 <= v && v <= 2147483647) && -9223372036854775808 <= v && v <= 9223372036854775807
+//@ spec fitsUint(v, kind) := (kind == 8 ==> v <= 255) && (kind == 9 ==> v <= 65535) && (kind == 10 ==> v <= 4294967295) && 0 <= v && v <= 18446744073709551615
+
+//@ func (*intDecoder).parseInt(d, b) (r, err)
+//@   props C16
+//@   requires len(b) >= 1
+//@   requires forall k :: 0 <= k && k < len(b) ==> digit(b[k]) || (k == 0 && b[0] == '-')
+//@   ensures err == nil && b[0] == '-' ==> len(b) >= 2 && len(b) <= 20 && r == 0 - decvalN(b[1:], len(b)-1)
+//@   ensures err == nil && b[0] != '-' ==> len(b) <= 19 && r == decvalN(b, len(b))
+//@   assigns nothing
+//@   loop 1: unroll 19
+//@   split len(b) in 1..21
+
+//@ func (*uintDecoder).parseUint(d, b) (r, err)
+//@   props C16
+//@   requires len(b) >= 1
+//@   requires forall k :: 0 <= k && k < len(b) ==> digit(b[k])
+//@   ensures err == nil ==> len(b) <= 20 && r == decvalN(b, len(b))
+//@   assigns nothing
+//@   loop 1: unroll 20
+//@   split len(b) in 1..21
+
+//@ func (*intDecoder).decodeByte(d, buf, cursor) (res, c, err)
+//@   props C16 C05 C06
+//@   requires d != nil && bufOK(buf, cursor)
+//@   ensures err == nil ==> cursor < c && c < len(buf)
+//@   ensures err == nil && res == nil ==> c >= cursor+4 && wsRun(buf, cursor, c-4) && buf[c-4] == 'n' && buf[c-3] == 'u' && buf[c-2] == 'l' && buf[c-1] == 'l'
+//@   ensures err == nil && res != nil ==> len(res) >= 1 && c - len(res) >= cursor && wsRun(buf, cursor, c - len(res))
+//@   ensures err == nil && res != nil ==> jsonIntTok(buf, c - len(res), c) && (digit(buf[c]) ==> zeroTok(buf, c - len(res)))
+//@   ensures err == nil && res != nil ==> ptrOf(res) == ptrOf(buf) + (c - len(res)) || (len(res) == 1 && res[0] == '0' && buf[c-1] == '0')
+//@   assigns nothing
+//@   loop 1: invariant old(cursor) <= cursor && cursor < len(buf) && wsRun(buf, old(cursor), cursor)
+//@   loop 1: decreases len(buf) - cursor
+//@   loop 2: invariant start < cursor && cursor < len(buf) && digitRun(buf, start+1, cursor)
+//@   loop 2: decreases len(buf) - cursor
+
+//@ func (*intDecoder).Decode(d, ctx, cursor, depth, p) (c, err)
+//@   props C16 C06
+//@   requires d != nil && ctx != nil && bufOK(ctx.Buf, cursor)
+//@   ensures err != nil ==> ncalls("intDecoder.op") == old(ncalls("intDecoder.op"))
+//@   ensures err == nil ==> cursor < c && c < len(old(ctx.Buf))
+//@   ensures err == nil ==> ncalls("intDecoder.op") == old(ncalls("intDecoder.op")) || ncalls("intDecoder.op") == old(ncalls("intDecoder.op")) + 1
+//@   ensures err == nil && ncalls("intDecoder.op") != old(ncalls("intDecoder.op")) ==> callarg("intDecoder.op", 1) == p && fitsInt(callarg("intDecoder.op", 2), old(d.kind))
+//@   ensures err == nil && ncalls("intDecoder.op") != old(ncalls("intDecoder.op")) ==> exists s :: cursor <= s && s < c && old(wsRun(ctx.Buf, cursor, s) && jsonIntTok(ctx.Buf, s, c)) && callarg("intDecoder.op", 2) == old(intvalOf(ctx.Buf[s:c]))
+//@   assigns all
